@@ -43,8 +43,9 @@ with free_jump_hs (hs : handlers) : bool :=
   end.
 
 (* lower_ok: (1) nothing follows, in the same block, a statement that can set
-   LEAVES_LOOP in the current dict; (2) no break/continue leaves the
-   try/except/else part of a try statement that has a finally clause *)
+   LEAVES_LOOP in the current dict; (2) no break/continue leaves a
+   try statement that has a finally clause (from its try/except/else part or from the
+   finally block itself) *)
 Fixpoint lower_ok_s (s : stmt) : bool :=
   match s with
   | SIf b e => lower_ok_b b && lower_ok_b e
@@ -52,7 +53,7 @@ Fixpoint lower_ok_s (s : stmt) : bool :=
   | SWith _ b => lower_ok_b b
   | STry b hs e f =>
       lower_ok_b b && lower_ok_hs hs && lower_ok_b e && lower_ok_b f
-      && (is_nil f || negb (free_jump_b b || free_jump_hs hs || free_jump_b e))
+      && (is_nil f || negb (free_jump_b b || free_jump_hs hs || free_jump_b e || free_jump_b f))
   | _ => true
   end
 with lower_ok_b (b : block) : bool :=
